@@ -102,7 +102,7 @@ pub fn step_complement(r: &mut Run) {
 }
 
 /// challenge message: 19 symbolic bytes (tag, flags64, challenge32, creation32, name length 0)
-pub fn step_challenge(r: &mut Run) -> u32 {
+pub fn step_challenge(r: &mut Run, prev_their: u32) -> u32 {
     let mut m = [0u8; 19];
     let mut i = 0;
     while i < 17 {
@@ -128,6 +128,9 @@ pub fn step_challenge(r: &mut Run) -> u32 {
         Err(e) => {
             vassert!(m[0] != b'N', "L:wellformed_challenge_accepted");
             vk::leak(e);
+            // a rejected challenge message changes nothing: a later reply still answers the last accepted challenge
+            inv(r);
+            return prev_their;
         }
     }
     inv(r);
